@@ -33,7 +33,13 @@ def run(tier, seed):
         v.notes.append("observed transfers that did not complete cleanly: %s" % str(ob['drift_samples'][:1])[:300])
     import e2e_common
     e2e_common.report_rules(v, PROP, res['trace_rules'])
-    v.coverage = dict(evaluations=res['behaviours'], distinct_nontrivial=res['distinct'], child_hook_traces_validated_by_tlc=res['trace_stats'],
+    # the claim must also hold at the start of a resumed session: metadata that survived while the data file was
+    # deleted or shortened claims chunks that are not in the file (the datafile-* cases of the C06 driver)
+    df = vlib.run_vh_sharded(['resume-tamper', '-seed', str(seed), '-only', 'datafile'], 4, timeout=1200)
+    for viol in df['violations']:
+        if viol['sig'].get('kind') == 'stale_or_damaged_resume_state_trusted':
+            v.violation(dict(kind='metadata_kept_although_the_data_file_lost_the_chunks', case=viol['sig'].get('case')), viol.get('replay'))
+    v.coverage = dict(evaluations=res['behaviours'], distinct_nontrivial=res['distinct'], child_hook_traces_validated_by_tlc=res['trace_stats'], data_file_lost_cases=df['behaviours'],
                       rule="one receiver process per (tree, streams, hook point, k-th hit, optional concurrent flush trigger); non-trivial = the process really died at the kill point",
                       samples=res['samples'][:6], outcomes=res['extra'].get('outcomes'),
                       observer=dict(transfers=ob['behaviours'], observations=ob['extra'].get('observations'), sidecar_states_compared=ob['extra'].get('sidecar_loads_compared')),
